@@ -1,8 +1,9 @@
 (* PrintLexProofs.v — the lexer reads the string form of a compiled query as exactly the token
-   sequence TokPrint.query_toks (statement C10_lex of props/C10.v, with the side condition
-   [lex_safe] that the statement as given misses; see lex_print_refuted). *)
+   sequence TokPrint.query_toks (statement C10_lex of props/C10.v), for queries whose path-level
+   selectors are of the forms the parser builds ([lex_safe]: no bare index, no bare filter;
+   implied by Reparsable.reparsable, see reparsable_lex_safe; needed, see lex_print_unsafe_refuted). *)
 From JP Require Import Base Json PyStr PyJsonStr Syntax Gen_unicode Lex Parse Serialize TokPrint Printable
-                       NormPath PyStrLemmas LocationProofs LexProofs LexSteps.
+                       Gate Reparsable NormPath PyStrLemmas LocationProofs LexProofs LexSteps.
 
 (* ---------------------------------------------------------------------- *)
 (* the shape of repr(float) *)
@@ -211,11 +212,17 @@ Section Eqns.
      Ok (mkTok TLBracket [91%N] :: sep_by [comma] xs ++ [mkTok TRBracket [93%N]])).
   Proof. reflexivity. Qed.
   Lemma gt_sel_other s :
-    match s with SName _ | SWild | SKeys => False | _ => True end -> seg_text E (GSel s) = sel_text E s.
+    match s with SIndex _ | SFilter _ => True | _ => False end -> seg_text E (GSel s) = sel_text E s.
   Proof. destruct s; try contradiction; reflexivity. Qed.
   Lemma gk_sel_other s :
-    match s with SName _ | SWild | SKeys => False | _ => True end -> seg_toks E (GSel s) = sel_toks E s.
+    match s with SIndex _ | SFilter _ => True | _ => False end -> seg_toks E (GSel s) = sel_toks E s.
   Proof. destruct s; try contradiction; reflexivity. Qed.
+  Lemma gt_slice a b c : seg_text E (GSel (SSlice a b c)) =
+    (x <- sel_text E (SSlice a b c) ;; Ok (91%N :: x ++ [93%N])).
+  Proof. reflexivity. Qed.
+  Lemma gk_slice a b c : seg_toks E (GSel (SSlice a b c)) =
+    (x <- sel_toks E (SSlice a b c) ;; Ok (mkTok TLBracket [91%N] :: x ++ [mkTok TRBracket [93%N]])).
+  Proof. reflexivity. Qed.
 
   Lemma pt_cons g r : segs_text E (PCons g r) = (x <- seg_text E g ;; xs <- segs_text E r ;; Ok (x ++ xs)).
   Proof. reflexivity. Qed.
@@ -232,13 +239,6 @@ Proof. destruct r as [a|e]; cbn [bind]; [|discriminate]. intros H. exists a. aut
 
 Definition seg_bare_ok (g : segment) : bool :=
   match g with GSel (SIndex _) | GSel (SFilter _) => false | _ => true end.
-
-(* a bare slice must not run into the digits of a following bare slice *)
-Definition slice_follow_ok (g : segment) (r : segs) : bool :=
-  match g, r with
-  | GSel (SSlice _ _ _), PCons (GSel (SSlice (Some z) _ _)) _ => Z.ltb z 0
-  | _, _ => true
-  end.
 
 Fixpoint ls_expr (e : fexpr) : bool :=
   match e with
@@ -260,7 +260,7 @@ with ls_seg (g : segment) : bool :=
 with ls_segs (p : segs) : bool :=
   match p with
   | PNil => true
-  | PCons g r => seg_bare_ok g && slice_follow_ok g r && ls_seg g && ls_segs r
+  | PCons g r => seg_bare_ok g && ls_seg g && ls_segs r
   end.
 
 Definition lex_safe (q : query) : bool :=
@@ -497,12 +497,9 @@ Section Main.
   Definition Pss (l : sels) : Prop :=
     pr_sels ro l = true -> ls_sels l = true ->
     forall xs tss, sels_text E l = Ok xs -> sels_toks E l = Ok tss -> Forall2 both xs tss.
-  Definition is_bare_slice (g : segment) : bool :=
-    match g with GSel (SSlice _ _ _) => true | _ => false end.
-  Definition Dg (g : segment) (rest : ustr) : Prop := is_bare_slice g = true -> nud rest.
   Definition Pg (g : segment) : Prop :=
     pr_seg ro g = true -> ls_seg g = true -> seg_bare_ok g = true ->
-    forall x ts, seg_text E g = Ok x -> seg_toks E g = Ok ts -> lexes x ts (Dg g).
+    forall x ts, seg_text E g = Ok x -> seg_toks E g = Ok ts -> lexes x ts (fun _ => True).
   Definition Pp (p : segs) : Prop :=
     pr_segs ro p = true -> ls_segs p = true ->
     forall x ts, segs_text E p = Ok x -> segs_toks E p = Ok ts -> lexes x ts nud.
@@ -826,10 +823,11 @@ Section Main.
               tokenize E rest).
       cbn [app]. rewrite <- app_assoc. cbn [app]. rewrite (tok_lbracket E HE).
       rewrite (tok_string E k). rewrite (tok_rbracket E HE). reflexivity.
-    - rewrite gt_sel_other in Hx by exact I. rewrite gk_sel_other in Ht by exact I.
-      rewrite slice_sel_text in Hx. injection Hx as <-. injection Ht as <-.
-      intros rest HD.
-      apply (tok_slice E); [apply opt_text_dec|apply opt_text_dec|apply step_text_dec|apply HD; reflexivity].
+    - rewrite gt_slice in Hx. rewrite gk_slice in Ht. rewrite slice_sel_text in Hx.
+      cbn [bind] in Hx. injection Hx as <-. injection Ht as <-.
+      intros rest _. cbn [app]. rewrite <- app_assoc. cbn [app]. rewrite (tok_lbracket E HE).
+      rewrite (tok_slice E); [|apply opt_text_dec|apply opt_text_dec|apply step_text_dec|reflexivity].
+      rewrite (tok_rbracket E HE). reflexivity.
     - injection Hx as <-. injection Ht as <-. intros rest _. cbn [app].
       rewrite (tok_lbracket E HE), (tok_wild E HE), (tok_rbracket E HE). reflexivity.
     - destruct HE as [_ [_ [_ [_ [_ [_ [_ Hkeys]]]]]]].
@@ -853,41 +851,6 @@ Section Main.
     intros rest _. apply bracket_lexes. exact HJ.
   Qed.
 
-  Lemma seg_text_head g x :
-    seg_bare_ok g = true ->
-    match g with GSel (SSlice (Some z) _ _) => Z.ltb z 0 = true | _ => True end ->
-    seg_text E g = Ok x -> exists c y, x = c :: y /\ is_udigit c = false.
-  Proof.
-    intros Hb Hneg Hx. destruct g as [s| |items].
-    - destruct s as [k|i|a b c| | |e]; try discriminate Hb.
-      + injection Hx as <-. eexists; eexists; split; reflexivity.
-      + rewrite gt_sel_other in Hx by exact I. rewrite slice_sel_text in Hx. injection Hx as <-.
-        destruct a as [z|].
-        * apply Z.ltb_lt in Hneg. cbn [opt_text]. rewrite str_of_Z_neg by exact Hneg.
-          eexists; eexists; split; reflexivity.
-        * eexists; eexists; split; reflexivity.
-      + injection Hx as <-. eexists; eexists; split; reflexivity.
-      + injection Hx as <-. eexists; eexists; split; reflexivity.
-    - injection Hx as <-. eexists; eexists; split; reflexivity.
-    - rewrite gt_list in Hx. apply bind_ok in Hx as [xs [_ Hx]]. injection Hx as <-.
-      eexists; eexists; split; reflexivity.
-  Qed.
-
-  Lemma segs_text_nud g r xr rest :
-    is_bare_slice g = true -> slice_follow_ok g r = true -> ls_segs r = true ->
-    segs_text E r = Ok xr -> nud rest -> nud (xr ++ rest).
-  Proof.
-    intros Hg Hf Hls Hx Hr. destruct r as [|g' r'].
-    - injection Hx as <-. exact Hr.
-    - cbn [ls_segs] in Hls. apply andb_true_iff in Hls as [Hls _]. apply andb_true_iff in Hls as [Hls _].
-      apply andb_true_iff in Hls as [Hb _].
-      rewrite pt_cons in Hx. apply bind_ok in Hx as [xg [Hxg Hx]]. apply bind_ok in Hx as [xr' [_ Hx]].
-      injection Hx as <-.
-      destruct (seg_text_head g' xg Hb) as [c [y [-> Hc]]]; [|exact Hxg|exact Hc].
-      destruct g as [[]| |]; try discriminate Hg.
-      destruct g' as [[k|i|[z|] b' c'| | |e]| |items]; try exact I. exact Hf.
-  Qed.
-
   Lemma case_pnil : Pp PNil.
   Proof. intros _ _ x ts Hx Ht. injection Hx as <-. injection Ht as <-. intros rest _. reflexivity. Qed.
 
@@ -895,16 +858,14 @@ Section Main.
   Proof.
     intros IHg IHr Hpr Hls x ts Hx Ht. cbn [pr_segs] in Hpr. cbn [ls_segs] in Hls.
     apply andb_true_iff in Hpr as [Hpg Hpr].
-    apply andb_true_iff in Hls as [Hls Hlr]. apply andb_true_iff in Hls as [Hls Hlg].
-    apply andb_true_iff in Hls as [Hbare Hfollow].
+    apply andb_true_iff in Hls as [Hls Hlr]. apply andb_true_iff in Hls as [Hbare Hlg].
     rewrite pt_cons in Hx. rewrite pk_cons in Ht.
     apply bind_ok in Hx as [xg [Hxg Hx]]. apply bind_ok in Hx as [xr [Hxr Hx]].
     apply bind_ok in Ht as [tg [Htg Ht]]. apply bind_ok in Ht as [tr [Htr Ht]].
     injection Hx as <-. injection Ht as <-.
     intros rest HD. rewrite <- !app_assoc.
-    rewrite (IHg Hpg Hlg Hbare xg tg Hxg Htg (xr ++ rest)).
-    - rewrite (IHr Hpr Hlr xr tr Hxr Htr rest HD). reflexivity.
-    - intros Hsl. apply (segs_text_nud g r xr rest Hsl Hfollow Hlr Hxr HD).
+    rewrite (IHg Hpg Hlg Hbare xg tg Hxg Htg (xr ++ rest) I).
+    rewrite (IHr Hpr Hlr xr tr Hxr Htr rest HD). reflexivity.
   Qed.
 
   Theorem text_tokens :
@@ -1021,32 +982,24 @@ Proof.
   intros E re_ok q t ts HE Hpr Hls Hx Ht. apply (query_lexes E re_ok HE q t ts Hpr Hls Hx Ht).
 Qed.
 
-(* C10_lex as stated fails: two bare slices in a row (what "$1:2 3:4" compiles to) print as
-   "$1:2:13:4:1", which the lexer reads as the slices 1:2:13 and :4:1 *)
+(* two bare slices in a row (what "$1:2 3:4" compiles to) are printed in brackets and read back
+   as the same tokens *)
 Definition two_slices : query :=
   mkQuery (mkPath false (PCons (GSel (SSlice (Some 1%Z) (Some 2%Z) None))
                         (PCons (GSel (SSlice (Some 3%Z) (Some 4%Z) None)) PNil))) [].
 
-Theorem lex_print_refuted :
-  ~ (forall (E : env) re_ok (q : query) (t : ustr) (ts : list token),
-       default_tokens E -> printable re_ok q = true ->
-       query_text E q = Ok t -> query_toks E q = Ok ts ->
-       tokenize E t = ts).
-Proof.
-  intros H.
-  assert (HE : default_tokens default_env) by (repeat split; reflexivity).
-  specialize (H default_env (fun _ => Some true) two_slices
-                [36; 49; 58; 50; 58; 49; 51; 58; 52; 58; 49]%N _ HE eq_refl eq_refl eq_refl).
-  vm_compute in H. discriminate H.
-Qed.
-
-Example two_slices_compiled :
+Example two_slices_roundtrip :
   compile default_env (fun _ => Some true) [36; 49; 58; 50; 32; 51; 58; 52]%N = Ok two_slices /\
-  query_text default_env two_slices = Ok [36; 49; 58; 50; 58; 49; 51; 58; 52; 58; 49]%N /\
-  compile default_env (fun _ => Some true) [36; 49; 58; 50; 58; 49; 51; 58; 52; 58; 49]%N =
-  Ok (mkQuery (mkPath false (PCons (GSel (SSlice (Some 1%Z) (Some 2%Z) (Some 13%Z)))
-                            (PCons (GSel (SSlice None (Some 4%Z) (Some 1%Z))) PNil))) []).
-Proof. vm_compute. repeat split; reflexivity. Qed.
+  (* $[1:2:1][3:4:1] *)
+  query_text default_env two_slices =
+    Ok [36; 91; 49; 58; 50; 58; 49; 93; 91; 51; 58; 52; 58; 49; 93]%N /\
+  lex_safe two_slices = true /\
+  (exists ts, query_toks default_env two_slices = Ok ts /\
+              tokenize default_env [36; 91; 49; 58; 50; 58; 49; 93; 91; 51; 58; 52; 58; 49; 93]%N = ts).
+Proof.
+  split; [vm_compute; reflexivity|]. split; [vm_compute; reflexivity|]. split; [reflexivity|].
+  eexists. split; vm_compute; reflexivity.
+Qed.
 
 (* ---------------------------------------------------------------------- *)
 (* the printer and the token printer fail in the same cases *)
@@ -1147,4 +1100,101 @@ Proof.
   destruct (path_toks E (q_first q)) as [a|]; [|discriminate H1].
   destruct (rest_toks E (q_rest q)) as [b|]; [|discriminate H2].
   eexists. reflexivity.
+Qed.
+
+(* ---------------------------------------------------------------------- *)
+(* lex_safe follows from the shape conditions of spec/Reparsable.v *)
+
+Section ReparsableSafe.
+  Variable E : env.
+  Variable ro : ustr -> option bool.
+
+  Lemma lit_ls e : is_lit e = true -> ls_expr e = true.
+  Proof. destruct e; try discriminate; reflexivity. Qed.
+
+  Definition Re (e : fexpr) : Prop := rp_expr E e = true -> pr_expr ro e = true -> ls_expr e = true.
+  Definition Res (es : fexprs) : Prop :=
+    (rp_args E es = true -> pr_exprs ro es = true -> ls_exprs es = true) /\
+    (pr_lits ro es = true -> ls_exprs es = true).
+  Definition Rs (s : selector) : Prop := rp_sel E s = true -> pr_sel ro s = true -> ls_sel s = true.
+  Definition Rss (l : sels) : Prop := rp_sels E l = true -> pr_sels ro l = true -> ls_sels l = true.
+  Definition Rg (g : segment) : Prop :=
+    rp_seg E g = true -> pr_seg ro g = true -> seg_bare_ok g = true /\ ls_seg g = true.
+  Definition Rp (p : segs) : Prop := rp_segs E p = true -> pr_segs ro p = true -> ls_segs p = true.
+
+  Theorem reparsable_safe_all :
+    (forall e, Re e) /\ (forall es, Res es) /\ (forall s, Rs s) /\ (forall l, Rss l) /\
+    (forall g, Rg g) /\ (forall p, Rp p).
+  Proof.
+    apply (syntax_mutind Re Res Rs Rss Rg Rp); unfold Re, Res, Rs, Rss, Rg, Rp;
+      try (intros; reflexivity).
+    - (* FList *) intros items [_ IH] _ Hpr. cbn [pr_expr] in Hpr. cbn [ls_expr]. apply IH. exact Hpr.
+    - (* FNot *) intros r IH Hrp Hpr. cbn [rp_expr pr_expr ls_expr] in *. apply IH; assumption.
+    - (* FInfix *) intros l IHl o r IHr Hrp Hpr. cbn [rp_expr pr_expr ls_expr] in *.
+      apply andb_true_iff in Hrp as [H1 H2]. apply andb_true_iff in Hpr as [H3 H4].
+      rewrite (IHl H1 H3), (IHr H2 H4). reflexivity.
+    - intros p IH Hrp Hpr. cbn [rp_expr pr_expr ls_expr] in *. apply IH; assumption.
+    - intros fake p IH Hrp Hpr. cbn [rp_expr pr_expr ls_expr] in *. apply IH; assumption.
+    - intros p IH Hrp Hpr. cbn [rp_expr pr_expr ls_expr] in *. apply IH; assumption.
+    - (* FFunc *) intros name args [IH _] Hrp Hpr. cbn [rp_expr pr_expr ls_expr] in *.
+      apply andb_true_iff in Hpr as [_ Hpr]. apply IH; assumption.
+    - (* ENil *) split; intros; reflexivity.
+    - (* ECons *) intros e IHe r [IHr1 IHr2]. split.
+      + intros Hrp Hpr. cbn [rp_args pr_exprs ls_exprs] in *.
+        apply andb_true_iff in Hrp as [Hrp H2]. apply andb_true_iff in Hrp as [_ H1].
+        apply andb_true_iff in Hpr as [H3 H4]. rewrite (IHe H1 H3), (IHr1 H2 H4). reflexivity.
+      + intros Hpr. cbn [pr_lits ls_exprs] in *.
+        apply andb_true_iff in Hpr as [Hpr H2]. apply andb_true_iff in Hpr as [H1 _].
+        rewrite (lit_ls e H1), (IHr2 H2). reflexivity.
+    - (* SFilter *) intros e IH Hrp Hpr. cbn [rp_sel pr_sel ls_sel] in *. apply IH; assumption.
+    - (* LCons *) intros s IHs r IHr Hrp Hpr. cbn [rp_sels pr_sels ls_sels] in *.
+      apply andb_true_iff in Hrp as [H1 H2]. apply andb_true_iff in Hpr as [H3 H4].
+      rewrite (IHs H1 H3), (IHr H2 H4). reflexivity.
+    - (* GSel *) intros s IH Hrp Hpr. cbn [rp_seg pr_seg ls_seg] in *.
+      apply andb_true_iff in Hrp as [Hb Hrp]. split; [|apply IH; assumption].
+      destruct s; try discriminate Hb; reflexivity.
+    - (* GDescent *) intros _ _. split; reflexivity.
+    - (* GList *) intros items IH Hrp Hpr. cbn [rp_seg pr_seg ls_seg] in *.
+      split; [reflexivity|apply IH; assumption].
+    - (* PCons *) intros g IHg r IHr Hrp Hpr. cbn [rp_segs pr_segs ls_segs] in *.
+      apply andb_true_iff in Hrp as [H1 H2]. apply andb_true_iff in Hpr as [H3 H4].
+      destruct (IHg H1 H3) as [Hb Hl]. rewrite Hb, Hl, (IHr H2 H4). reflexivity.
+  Qed.
+
+  Theorem reparsable_lex_safe (q : query) :
+    reparsable E q = true -> printable ro q = true -> lex_safe q = true.
+  Proof.
+    unfold reparsable, printable, lex_safe. intros Hrp Hpr.
+    apply andb_true_iff in Hrp as [H1 H2]. apply andb_true_iff in Hpr as [H3 H4].
+    destruct reparsable_safe_all as [_ [_ [_ [_ [_ Hp]]]]].
+    rewrite (Hp _ H1 H3). cbn [andb].
+    rewrite forallb_forall in *. intros op Hin. apply Hp; [apply H2|apply H4]; exact Hin.
+  Qed.
+End ReparsableSafe.
+
+(* C10_lex for reparsable queries *)
+Theorem lex_print_reparsable :
+  forall (E : env) re_ok (q : query) (t : ustr) (ts : list token),
+    default_tokens E -> printable re_ok q = true -> reparsable E q = true ->
+    query_text E q = Ok t -> query_toks E q = Ok ts ->
+    tokenize E t = ts.
+Proof.
+  intros E re_ok q t ts HE Hpr Hrp. apply (lex_print_partial E re_ok q t ts HE Hpr).
+  apply (reparsable_lex_safe E re_ok q Hrp Hpr).
+Qed.
+
+(* without lex_safe the statement fails: a bare index selector (never built by the parser)
+   followed by ".." prints as "$5..", which the lexer reads as the float "5." *)
+Theorem lex_print_unsafe_refuted :
+  ~ (forall (E : env) re_ok (q : query) (t : ustr) (ts : list token),
+       default_tokens E -> printable re_ok q = true ->
+       query_text E q = Ok t -> query_toks E q = Ok ts ->
+       tokenize E t = ts).
+Proof.
+  intros H.
+  assert (HE : default_tokens default_env) by (repeat split; reflexivity).
+  specialize (H default_env (fun _ => Some true)
+                (mkQuery (mkPath false (PCons (GSel (SIndex 5%Z)) (PCons GDescent PNil))) [])
+                [36; 53; 46; 46]%N _ HE eq_refl eq_refl eq_refl).
+  vm_compute in H. discriminate H.
 Qed.
